@@ -429,7 +429,13 @@ def contains(interp, cont, x):
     if tg == "vbytes":
         tx = interp.tag(x)
         if tx == "vbytes":
-            return simp(z3.Contains(interp.bytes_term(cont), interp.bytes_term(x)))
+            ct_, xt_ = interp.bytes_term(cont), interp.bytes_term(x)
+            parts_ = __import__("pyvc.strings", fromlist=["x"]).flatten_concat(simp(ct_))
+            if z3.is_string_value(xt_) and len(S.str_value(xt_) if hasattr(S, "str_value") else "x") >= 0:
+                from .core import str_value as _sv
+                if len(_sv(xt_)) == 1 and all(S.b64u_free_of(p_, xt_) or (S.is_rep_of(p_, "=") and _sv(xt_) != "=") or (z3.is_string_value(p_) and _sv(xt_) not in _sv(p_)) for p_ in parts_):
+                    return False
+            return simp(z3.Contains(ct_, xt_))
         if tx in ("vint", "vbool"):
             it = interp.int_term(x)
             if not interp.ctx.branch(z3.And(it >= 0, it < 256)):
